@@ -371,6 +371,45 @@ var Indicators = []*IndEntity{
 		}
 		return a
 	}},
+	// ---- the types that take a moving average through the Ma interface, over every Ma implementation
+	{Name: "volatility.AtrMa", Sig: "hlc", NOut: 1, NCfg: 2, NoScale: true, Make: func(c []int) any {
+		if c == nil {
+			return volatility.NewAtrWithMa[F](trend.NewHmaWithPeriod[F](9))
+		}
+		return volatility.NewAtrWithMa[F](makeMa(c[1], c[0]))
+	}},
+	{Name: "trend.EnvelopeMa", Sig: "c", NOut: 3, NCfg: 2, NoScale: true, Make: func(c []int) any {
+		if c == nil {
+			return trend.NewEnvelope[F](trend.NewHmaWithPeriod[F](9), 15)
+		}
+		return trend.NewEnvelope[F](makeMa(c[1], c[0]), 15)
+	}},
+	{Name: "trend.TsiMa", Sig: "c", NOut: 1, NCfg: 4, NoScale: true, Make: func(c []int) any {
+		t := trend.NewTsi[F]()
+		if c != nil {
+			t.FirstSmoothing, t.SecondSmoothing = makeMa(c[2], c[0]), makeMa(c[3], c[1])
+		}
+		return t
+	}},
+	{Name: "volatility.SuperTrendMa", Sig: "hlc", NOut: 1, NCfg: 2, NoScale: true, Make: func(c []int) any {
+		if c == nil {
+			return volatility.NewSuperTrendWithMa[F](trend.NewWmaWith[F](6), 3)
+		}
+		return volatility.NewSuperTrendWithMa[F](makeMa(c[1], c[0]), 3)
+	}},
+	{Name: "volatility.KeltnerChannelParts", Sig: "hlc", NOut: 3, NCfg: 3, NoScale: true, Make: func(c []int) any {
+		k := volatility.NewKeltnerChannel[F]()
+		if c != nil {
+			// the bands are aligned by skipping Atr.Idle - Ema.Idle values of the EMA: the ATR must
+			// not warm up before the EMA
+			k.Ema = trend.NewEmaWithPeriod[F](min(c[0], c[1]))
+			k.Atr = volatility.NewAtrWithMa[F](makeMa(c[2], max(c[0], c[1])))
+			if k.Atr.IdlePeriod() < k.Ema.IdlePeriod() {
+				k.Atr = volatility.NewAtrWithPeriod[F](max(c[0], c[1]))
+			}
+		}
+		return k
+	}},
 	// ---- volume
 	{Name: "volume.Ad", Sig: "hlcv", NOut: 1, Make: func(c []int) any { return volume.NewAd[F]() }},
 	{Name: "volume.Cmf", Sig: "hlcv", NOut: 1, NCfg: 1, Make: func(c []int) any {
@@ -409,6 +448,23 @@ var Indicators = []*IndEntity{
 		}
 		return volume.NewVwapWithPeriod[F](c[0])
 	}},
+}
+
+// makeMa returns one of the moving averages that implement trend.Ma.
+func makeMa(kind, period int) trend.Ma[F] {
+	switch kind % 6 {
+	case 0:
+		return trend.NewEmaWithPeriod[F](period)
+	case 1:
+		return trend.NewSmaWithPeriod[F](period)
+	case 2:
+		return trend.NewHmaWithPeriod[F](period)
+	case 3:
+		return trend.NewWmaWith[F](period)
+	case 4:
+		return trend.NewSmmaWithPeriod[F](period)
+	}
+	return trend.NewKamaWith[F](period, 2, 30)
 }
 
 var indByName = map[string]*IndEntity{}
